@@ -16,6 +16,7 @@ def check(tier, seed, only=None):
         compress_thorough=("sha1_base", "sha256_base", "sha512_base", "md5_base", "sm3_base")))
     rep.default_replays()
     p_ctx_common.add_mgr_bounded(rep, tier, seed)
+    p_ctx_common.add_base_bounded(rep, tier, seed)
     rep.notes.append(
         "closing lemma (definition of the iterated hash, not machine checked): the blocks handed to the compression "
         "side for a context are exactly M||pad(|M|) in order (tape obligations for an arbitrary stream position g_P), "
